@@ -82,7 +82,10 @@ def edge_programs(rng, n):
               'out int i;\nout int k;\nparser { case { "a" -> { if k == 0 { i = 1; } } "b" -> { i = 2; } } k = 5; "="; }\n',
               'out int i;\nparser { case { "a" -> { if i == 0 { i = 1; } } "b" -> {} } i = 2; "x"; }\n',
               'out int i = 0;\nparser { loop { optional { if i == 0 { "a"; } } "z"; } }\n',
-              'out int i = 0;\nparser { try { if i == 0 { "a"; } else { "b"; } } catch { } "z"; }\n']
+              'out int i = 0;\nparser { try { if i == 0 { "a"; } else { "b"; } } catch { } "z"; }\n',
+              'out int i = 0;\nparser { loop { case { "(" -> { i = [i + 1]; } ")" -> { i = [i - 1]; } /[a-z]/ -> {} } if i < 0 { finish; } elif i == 0 { break; } } ";"; }\n',
+              'out int i = 0;\nfinishcode F;\nparser { loop { "a"; i = [i + 1]; if i == 3 { break; } elif i == 9 { finish F; } else { i = [i + 1]; } } "z"; }\n',
+              'out int i = 0;\nparser { "a"; optional { optional { i = 1; } } "b"; }\n']
     for k, src in enumerate(always):
         for lvl in ("-O0", "-O1", "-O3"):
             out.append({"name": f"always-{k}{lvl}", "src": src, "args": [lvl]})
